@@ -108,7 +108,13 @@ def twin_run(S, lines, cut=None):
             # owner: assigning .shape to an OWNER re-creates it and its views (new version of the family); assigning
             # .shape to a view changes no version
             tg = A[vp._target_name(ln)]
-            if vp.ultimate(tg) is tg and shape_before.get(vp._target_name(ln)) != tg.shape:  # assigning the same shape is a no-op
+            # owner = no OTHER named array owns its memory (a copying reshape returns a view of an anonymous temporary: an owner too)
+            tname = vp._target_name(ln)
+            born = lambda m: next((j for j, h in enumerate(hist) if m in h), len(hist))  # init names are in hist[0] or earlier
+            init_names = getattr(S, "INIT_NAMES", ("t",) + LEAVES)
+            named_owner = any(np.shares_memory(A[m], tg) and (m in init_names or born(m) < born(tname)) for m in names
+                              if m in A and isinstance(A[m], np.ndarray) and m != tname and tname not in init_names)
+            if not named_owner and shape_before.get(vp._target_name(ln)) != tg.shape:  # assigning the same shape is a no-op
                 for n in names:
                     if n in A and isinstance(A[n], np.ndarray):
                         f[n] = bool(np.shares_memory(tg, A[n]))
@@ -328,7 +334,9 @@ def twin(init, cut=None):
         if ".shape =" in ln:
             tg_ = A[tgt(ln)]; ub = tg_
             while ub.base is not None: ub = ub.base
-            f = {n: bool(ub is tg_ and sb.get(tgt(ln)) != tg_.shape and np.shares_memory(tg_, A[n])) for n in f}
+            born = lambda m: next((j for j, (h, _) in enumerate(hist) if m in h), len(hist))
+            named_owner = any(np.shares_memory(A[m], tg_) and (m in INIT or born(m) < born(tgt(ln))) for m in f if m != tgt(ln) and tgt(ln) not in INIT)
+            f = {n: bool((not named_owner) and sb.get(tgt(ln)) != tg_.shape and np.shares_memory(tg_, A[n])) for n in f}
         hist.append(({n: A[n].copy() for n in NAMES + ("y0", "yv", "y2") if n in A and isinstance(A[n], np.ndarray)}, f))
     return A, hist
 T = {"mg": mg, "np": np}; T.update({k: mg.Tensor(v) for k, v in INIT.items()}); T.update(CONST)
